@@ -20,7 +20,8 @@ MANIFEST = dict(
          "skip decisions are the same function (false on the pinned text: D5). D5 and the new D15 (a skipped "
          "directory on another file system dropped its siblings) are refuted by witness on the pinned text and "
          "repaired. Tie to the code: extracted models of both walkers vs WalkBuilder::build() and build_parallel() "
-         "(1..8 threads) on real temp trees, plus an independent find-style listing.",
+         "(1..8 threads) on real temp trees, plus an independent find-style listing; six directed schedules "
+         "(walk_verif yield hook: a thief held back at ACTIVATE) compare the parallel with the serial multiset.",
     note="trusted: Coq kernel, extraction, OCaml driver, Rust harness, Python oracle; walkdir 2.5.0 is modelled "
          "(IntoIter::next/handle_entry/push/pop/skip_current_dir) and tested, not verified; the parallel walker is a "
          "sequential worklist here (schedule independence is C07); entries are compared on (kind, path, depth): a root "
@@ -481,6 +482,59 @@ def diff3(a, b):
     return sorted(sa - sb, key=repr)[:4], sorted(sb - sa, key=repr)[:4]
 
 
+RACE = dict(activate_sleep_ms=200, visit_sleep_ms=20, rounds=3)
+
+
+def check_race(ctx, base0, stats):
+    """directed schedules of the parallel walker (library level, ignore::walk_verif yield hook): an idle worker is held
+       up between its successful steal and its re-activation while the others run dry; every round must report the
+       serial walk's entries, each once.  True of correct code under every schedule: a stall can only hide a defect."""
+    lines, metas = [], []
+    trees = [
+        ("small", {"a": 1, "b": 1, "c": 1, "d": {"e": 1, "f": 1}, "g": {"h": 1}}),
+        ("one-dir", {"d": {"e": 1}, "x": 1}),
+        ("chain", {"p": {"q": {"r": {"s": 1}}}, "t": 1, "u": 1}),
+    ]
+
+    def mk(path, t):
+        os.makedirs(path)
+        for n, k in t.items():
+            if isinstance(k, dict):
+                mk(os.path.join(path, n), k)
+            else:
+                open(os.path.join(path, n), "w").close()
+
+    def listing(t, pre="t"):
+        out = [pre + "/"]
+        for n, k in sorted(t.items()):
+            out += listing(k, pre + "/" + n) if isinstance(k, dict) else [pre + "/" + n]
+        return out
+    c = dict(max_depth=None, max_filesize=None, follow=False, same_fs=False, has_filter=False, filter_names=[], hidden=False)
+    for name, t in trees:
+        for threads in (2, 3):
+            base = os.path.join(base0, "race-%s-%d" % (name, threads))
+            mk(os.path.join(base, "t"), t)
+            lines.append(vlist([vbytes(base), vlist([vbytes("t")]), cfg_val(c, []), str(threads),
+                                str(RACE["activate_sleep_ms"]), str(RACE["visit_sleep_ms"]), str(RACE["rounds"])]))
+            metas.append((name, threads, listing(t)))
+    outs = vlib.code(602, lines, shards=len(lines))
+    for (name, threads, tree), line, o in zip(metas, lines, outs):
+        ctx.note_case("race" + line, True)
+        stats["directed-schedule-cases"] = stats.get("directed-schedule-cases", 0) + 1
+        v = parse_val(o) if o.startswith("(") else None
+        if v is None or len(v) != 4:
+            ctx.violation("directed-schedule harness failed: " + o[:80], dict(kind=602, line=line), nfi=True)
+            continue
+        dec = lambda l: [((e[0].decode("utf-8", "replace") if isinstance(e[0], bytes) else ""), e[1]) for e in l]
+        missing, extra = dec(v[0]), dec(v[1])
+        if missing or extra:
+            ctx.violation("parallel walk (%d threads; an idle worker delayed %d ms between its steal and its re-activation, visitor "
+                          "%d ms) differs from the serial walk in %d of %d rounds: missing %r, extra/duplicate %r"
+                          % (threads, RACE["activate_sleep_ms"], RACE["visit_sleep_ms"], v[3], RACE["rounds"], missing[:6], extra[:6]),
+                          dict(kind=602, tree=tree, roots=["t"], threads=threads, hook=dict(point="ACTIVATE", **RACE),
+                               missing=missing, extra=extra, line=line))
+
+
 def run(ctx):
     rng = ctx.rng
     ctx.cov["rule"] = ("a case = a real temp tree (<= 40 entries, depth <= 5; files of several sizes, directories with .ignore "
@@ -491,6 +545,7 @@ def run(ctx):
     base0, foreign0 = scratch()
     stats = {}
     try:
+        check_race(ctx, base0, stats)
         n = ctx.count(1500)
         done = 0
         b = 0
@@ -527,7 +582,10 @@ def replay(ctx, data):
     r = data["replay"]
     base0, foreign0 = scratch()
     try:
-        check_cases(ctx, [r["case"]], base0, foreign0, {})
+        if r.get("kind") == 602:
+            check_race(ctx, base0, {})
+        else:
+            check_cases(ctx, [r["case"]], base0, foreign0, {})
     finally:
         shutil.rmtree(base0, ignore_errors=True)
         if foreign0:
